@@ -14,6 +14,8 @@ that callback invocation) and `r2` (second call, LINE events only).  `closedT s 
 * `time_nonneg`     — a monotone clock gives non-negative times;
 * `time_conserved`  — for one thread, the line times of a function sum to at most the clock span of the trace;
 * `time_no_disabled`— `disable()` empties the slots, so nothing that happened before is charged afterwards;
+* `other_thread_disable_invisible` / `_report` — a `disable()` in one thread changes nothing of what other threads record
+                      afterwards (their lines in flight keep their hit and their whole duration);
 * `reentrancy_witness` — with recursion the slot is shared by the invocations and the caller's line is *not*
                       inclusive (finding F-C02a): the full-strength statement is false of model and code alike.
 -/
@@ -144,5 +146,34 @@ theorem reentrancy_witness :
     closedT (run (St.init regs2) recTrace) [1, 2] f 1 = 2 ∧
     inclusive regs2 recTrace f 1 = 104 := by
   refine ⟨by decide, by decide, by decide⟩
+
+/-- **C02 (another thread's `disable()` is invisible)**: when thread `t` switches its profiling off (its outermost scope
+    ends) while other threads are in the middle of lines, what those threads do afterwards is recorded exactly as if
+    the `disable()` had not happened — same hits, same times in every cell, same pending lines of every other thread:
+    the line in flight in another thread keeps its execution and its whole duration. -/
+theorem other_thread_disable_invisible (s : St) (evs : List Ev) (t : Nat) (h : ∀ e ∈ evs, e.t ≠ t) :
+    (run (s.clearThread t) evs).hits = (run s evs).hits ∧
+    (run (s.clearThread t) evs).time = (run s evs).time ∧
+    ∀ t' b, t' ≠ t → (run (s.clearThread t) evs).last t' b = (run s evs).last t' b := by
+  rw [run_clearThread_comm evs s t h]
+  refine ⟨rfl, rfl, ?_⟩
+  intro t' b ht
+  simp [St.clearThread, ht]
+
+/-- in particular the reported time and hits of every line -/
+theorem other_thread_disable_report (s : St) (evs : List Ev) (lines : List Int) (t : Nat) (b : Blk) (l : Int)
+    (h : ∀ e ∈ evs, e.t ≠ t) :
+    closedT (run (s.clearThread t) evs) lines b l = closedT (run s evs) lines b l ∧
+    closed (run (s.clearThread t) evs) lines b l = closed (run s evs) lines b l := by
+  rw [run_clearThread_comm evs s t h]
+  exact ⟨rfl, rfl⟩
+
+/-- non-vacuity: thread 1 is in the middle of line 1 of `f` (since clock 0); thread 0 runs `g` and disables; thread 1's
+    line then ends at clock 507 — one hit, 507 ticks, the `disable()` of thread 0 in between notwithstanding -/
+example :
+    let s1 := run (St.init regs2) [⟨1, 1, f, 1, true, 0, 0⟩, ⟨0, 2, g, 10, true, 0, 0⟩, ⟨0, 2, g, 10, false, 0, 0⟩]
+    let s2 := run (s1.clearThread 0) [⟨1, 1, f, 2, true, 507, 507⟩, ⟨1, 1, f, 2, false, 507, 507⟩]
+    closedT s2 [1, 2] f 1 = 507 ∧ closed s2 [1, 2] f 1 = 1 := by
+  refine ⟨by decide, by decide⟩
 
 end LPVerif.Props.C02
